@@ -492,6 +492,9 @@ def run(run):
     for (c, rec), ans in zip(mcases, answers):
         op = L.op_by_name(c['op'])
         cj = None
+        if ans.get('convMismatch'):
+            run.disagree(case_json(c), ans.get('convMismatch'), 0,
+                         'truncF64 / floatOverflows (concrete int(float), float(int) overflow) vs CPython on the run tables')
         deep = input_class(c['labels']) == 'deep_nesting'
         m = model_summary(op, ans.get('out', ans))
         real = rec['out']
